@@ -328,7 +328,9 @@ fn ref_obj_size(t: u16) -> Option<u32> {
 /// snapshots within the limits).
 fn reference_ok(a: &[RItem], b: &[RItem], osz: &BTreeMap<u16, u32>) -> bool {
     let lim = |x: &[RItem]| x.len() <= 1024 && 4 * (2 + 2 * x.len() + x.iter().map(|i| i.d.len()).sum::<usize>()) <= 65536;
-    a.iter().chain(b.iter()).all(|i| i.t <= 0x7fff) && osz.iter().all(|(&t, &s)| t < 64 && s > 0 && s < 8000) && lim(a) && lim(b)
+    // CSnapshotDelta::CreateDelta writes into a 16384-integer buffer without a bounds check
+    let delta_fits = 3 + a.len() + 3 * b.len() + b.iter().map(|i| i.d.len()).sum::<usize>() <= 16384;
+    a.iter().chain(b.iter()).all(|i| i.t <= 0x7fff) && osz.iter().all(|(&t, &s)| t < 64 && s > 0 && s < 8000) && lim(a) && lim(b) && delta_fits
 }
 fn sorted_unsigned(x: &[RItem]) -> Vec<RItem> {
     let mut v = x.to_vec();
@@ -394,10 +396,14 @@ fn op_pair(c: &Value) -> Value {
     }
     // the bundled DDNet reference on the same pair
     if reference_ok(&a_items, &b_items, &osz) {
-        let (ra, rwa) = ref_build(&a_items);
-        let (rb, rwb) = ref_build(&b_items);
-        if let (Some(rwa), Some(rwb)) = (rwa, rwb) {
-            let rd = ref_delta(&ra, &rb, &osz);
+        // a panic inside the reference *wrapper* is not an observation of libtw2: the clause is
+        // skipped for the case and the reason is logged
+        let built = vh_common::catch(|| (ref_build(&a_items), ref_build(&b_items)));
+        if let Err(m) = &built {
+            e["ref_skipped"] = json!(format!("{} @ {}", m, vh_common::last_panic_location()));
+        }
+        if let Ok(((ra, Some(rwa)), (rb, Some(rwb)))) = built {
+            let rd = vh_common::catch(|| ref_delta(&ra, &rb, &osz)).unwrap_or(None);
             e["ref"] = json!({"wa": rwa, "wb": rwb, "dw_out": if rd.is_some() {"ok"} else {"capacity"}, "dw": rd.clone().unwrap_or_default()});
             if let Some(rd) = rd {
                 // an empty reference delta is transmitted as "no delta": the cleared Delta
